@@ -1,6 +1,7 @@
 /- Line-protocol handlers for C06 (sparse matrices and linear operators). -/
 import OFV.Core.Json
 import OFV.Model.C06
+import OFV.Model.C06Expect
 import OFV.Spec.C06
 import OFV.Handlers.Common
 
@@ -20,8 +21,26 @@ def optNat (j : Json) (k : String) : Except String (Option Nat) :=
   | .ok v => do .ok (some (← J.nat v))
   | .error _ => .ok none
 
+def entry (j : Json) : Except String (Nat × Nat × GQ) := do
+  match (← J.arr j) with
+  | [r, c, v] => .ok (← J.nat r, ← J.nat c, ← J.gq v)
+  | _ => J.err "entry: [row, col, value] expected"
+
+def mat (dim : Nat) (j : Json) : Except String Mat := do
+  .ok ⟨dim, dim, ← J.listOf entry j⟩
+
 def handle (op : String) (j : Json) : Option (Except String Json) :=
   match op with
+  | "c06.expectation" => some do
+    let dim ← J.nat (← J.field j "dim")
+    let M ← mat dim (← J.field j "entries")
+    match j.getObjVal? "rho" with
+    | .ok r =>
+      let rho ← mat dim r
+      .ok (J.obj [("expectation", J.ofGQ (expectationDensity M rho)), ("variance", J.ofGQ (varianceDensity M rho))])
+    | .error _ =>
+      let psi ← J.listOf J.gq (← J.field j "state")
+      .ok (J.obj [("expectation", J.ofGQ (expectationVec M psi)), ("variance", J.ofGQ (varianceVec M psi))])
   | "c06.count_qubits" => some do
     let a ← J.op (← J.field j "a")
     match (← J.str (← J.field j "cls")) with
